@@ -55,7 +55,49 @@ func (b *synB) family(depth int) gr.Sym {
 	elem := func() gr.Sym { return b.family(depth - 1) }
 	var alts []gr.Alt_
 	body := func(s ...gr.Sym) gr.Alt_ { return gr.Alt_{Syms: s} }
-	switch rapid.IntRange(0, 9).Draw(b.t, "family") {
+	switch rapid.IntRange(0, 12).Draw(b.t, "family") {
+	case 10: // something followed by a possibly empty list: lookaheads of the first
+		// part come from FIRST of a nullable, recursive nonterminal
+		x := elem()
+		if b.nNT < b.maxNT {
+			ln, lpi := b.newNT()
+			y := elem()
+			if rapid.Bool().Draw(b.t, "listLeftRec") {
+				b.prods[lpi].Alts = []gr.Alt_{{Empty: true}, body(nt(ln), y)}
+			} else {
+				b.prods[lpi].Alts = []gr.Alt_{body(y, nt(ln)), {Empty: true}}
+			}
+			if rapid.Bool().Draw(b.t, "listThenTerm") {
+				alts = []gr.Alt_{body(x, nt(ln), b.term())}
+			} else {
+				alts = []gr.Alt_{body(x, nt(ln))}
+			}
+		} else {
+			alts = []gr.Alt_{body(x, b.term())}
+		}
+	case 11: // optional prefix / infix
+		x := elem()
+		if b.nNT < b.maxNT {
+			on, opi := b.newNT()
+			b.prods[opi].Alts = []gr.Alt_{body(elem()), {Empty: true}}
+			switch rapid.IntRange(0, 2).Draw(b.t, "optPos") {
+			case 0:
+				alts = []gr.Alt_{body(nt(on), x)}
+			case 1:
+				alts = []gr.Alt_{body(x, nt(on), b.term())}
+			default:
+				alts = []gr.Alt_{body(x, nt(on), nt(on), b.term())}
+			}
+		} else {
+			alts = []gr.Alt_{body(x)}
+		}
+	case 12: // the same phrase in two contexts with different followers
+		x := elem()
+		t1, t2, k1, k2 := b.term(), b.term(), b.term(), b.term()
+		alts = []gr.Alt_{body(k1, x, t1), body(k2, x, t2)}
+		if rapid.Bool().Draw(b.t, "thirdCtx") {
+			alts = append(alts, body(k1, k2, x))
+		}
 	case 0: // left-recursive list with separator
 		x, sep := elem(), b.term()
 		alts = []gr.Alt_{body(nt(name), sep, x), body(x)}
